@@ -170,7 +170,7 @@ CLAIMS = {
          'ordered by a release/acquire pair). Re-checked on every run against the current sources: a go/parser translator follows Lock/Unlock/defer regions in every non-test function of internal/..., including helpers '
          'all of whose call sites hold the lock (fixpoint), and emits every access to a struct field or package variable as (location, function, write?, under its lock?, start-up?); coqc evaluates the obligation that every '
          'location written while serving is accessed under its lock everywhere, except for a committed list with reasons; a new unprotected location is a VIOLATION (no-failing-input-found unless the detector also sees it). '
-         'Executed schedules: 4 OIDC filters (static and discovered endpoints x memory and Redis) sharing configuration objects, TLS pool, discovery cache, JWKS provider and stores are driven through the real '
+         'Executed schedules: 8 OIDC filters (static and discovered endpoints, inline and fetched key sets, memory and Redis; four of them first used seconds into the run; sessions shared between goroutines through the expiry of their tokens) sharing configuration objects, TLS pool, discovery cache, JWKS provider and stores are driven through the real '
          'ExtAuthZFilter.Check by 16 goroutines issuing every request kind while the secret controller reconciles rotating secrets and the CA file is rewritten; built with -race; every report that involves the service is '
          'canonicalised to its writer function(s) and reported with the two stacks as the replay; runtime aborts (concurrent map access) and a stalled request counter (deadlock) are findings too.'},
     'C18': {'note': 'Trusted: Coq kernel+vm_compute; hand-written model (handler model validated by lock-step replay in C01-C15; factory model validated here against the real factory); Go harness; store timeouts read by reflection. '
